@@ -489,7 +489,8 @@ def _rand_written_mem(isa, rnd):
     dflt = "gpr" if isa == "x86" else "x"
     if isa == "x86":
         i = rnd.choice(["", dflt])
-        return lc.K("mem", b=dflt, o=rnd.choice(["", "imd"]), i=i, sc=(rnd.choice(["1", "n"]) if i else "1"), pre="f", post="f")
+        # a symbol as displacement (`sym(%rax)`) is a third kind of offset next to none and an immediate
+        return lc.K("mem", b=dflt, o=rnd.choice(["", "imd", "imd", "id"]), i=i, sc=(rnd.choice(["1", "n"]) if i else "1"), pre="f", post="f")
     i = rnd.choice(["", "", dflt])
     o = "" if i else rnd.choice(["", "imd"])
     pre, post = rnd.choice([("f", "f"), ("f", "f"), ("t", "f"), ("f", "t")])
@@ -563,6 +564,7 @@ def _r3_random(args):
         mm, sem, parser = synth.load(a, i)
         tables = Tables(mm)
         ports = _ports(np)
+        first_seen = {}
         for ki in range(n_kernels):
             kernel, lines = [], []
             n = rnd.choice([1, 2, 3, 3, 4, 6])
@@ -605,9 +607,31 @@ def _r3_random(args):
             for f, ins in zip(forms, kernel):
                 ins["roles"] = observed_roles(f) if f.semantic_operands else ins["roles"]
             cases.append({"id": cid, "model": model, "kernel": kernel, "obs": res})
+            for ln, r in zip(lines, res):
+                first_seen.setdefault(ln, (r, cid))
             info[cid] = {"where": "random model %d" % mi, "lines": lines, "isa": isa}
             if len(kernel) > 1 and sum(1 for x in kernel if ins_class(x) != "nomem") > 1:
                 run.mark(cid)
+        # The composition is a function of the instruction and the model: every distinct line once more, alone, on a
+        # FRESH model object and in the reverse order of its first appearance (what was looked up before it differs).
+        try:
+            mm2, sem2, parser2 = synth.load(a, i)
+        except Exception:  # noqa
+            mm2 = None
+        for ln in (reversed(list(first_seen)) if mm2 is not None else ()):
+            want, cid0 = first_seen[ln]
+            try:
+                f2 = parser2.parse_line(ln, 1)
+                sem2.add_semantics([f2])
+                got = project_result(f2, ports)
+            except Exception:  # noqa - crashes and unrepresentable values are judged on the first analysis
+                continue
+            run.add_traces(1)
+            if canon_result(got) != canon_result(want):
+                run.fail("C08:%s:r3:composition-depends-on-what-was-analysed-before" % isa,
+                         "%s random model %d: %r analysed alone on a fresh model object gives %s, inside %s (after other instructions "
+                         "on the same model object) it gave %s" % (isa, mi, ln, canon_result(got), cid0, canon_result(want)),
+                         {"line": ln, "model": model, "alone": got, "in_sequence": want})
     import shutil
     shutil.rmtree(d, ignore_errors=True)
     return isa, run, cases, info
